@@ -1,4 +1,74 @@
-import JV.Spec.Rfc8259
+/-
+  C03 — decoding does not depend on how the input is delivered.
+
+  Proved here (Model: JV.Model.StreamSource = `stream_source` of source.hpp, tied to the real class by
+  the `src` correspondence stream): for EVERY chunk size k ≥ 1 and every sequence of requests, what a
+  stream-backed source hands to a decoder is exactly what the flat byte sequence would hand it —
+  `read n` returns the next n bytes whenever n bytes remain and comes back short otherwise, `peek`
+  shows the next byte, `read_chunk` returns a prefix of what remains, `eof()` is never true early.
+  Hence every decoder written against the source interface (JSON reader, CBOR/MessagePack/UBJSON/
+  BSON parsers) sees the same bytes from a stream with any internal buffer size as from a buffer.
+
+  NOT proved (decided per case on the real code by the `jt deliver` stream: every 2-way split, every
+  uniform chunk size 1..7, random splits, readers, stream buffers 1/2/3/5/16, iterator source, pull
+  cursor; outcomes must coincide): chunk-independence of the JSON parser's own suspend/resume logic
+  (`json_parser.hpp` "Buffer exhausted" branches) and the cursor/reader glue. D1, D17, D23 were
+  found there and repaired; D21 is recorded.
+-/
+import JV.Proofs.StreamSource
 namespace JV.Props.C03
-theorem placeholder : True := trivial
+open JV Model Model.StreamSource
+
+/-- a request the remaining input can satisfy returns exactly the next `n` bytes, whatever the chunk size -/
+theorem stream_read_exact (s : St) (n : Nat) (hi : Inv s) (hn : n ≤ (pending s).length) :
+    (read s n).1 = n ∧ (read s n).2.1 = (pending s).take n ∧ pending (read s n).2.2 = (pending s).drop n ∧ Inv (read s n).2.2 :=
+  read_exact s n hi hn
+
+/-- a request for more than remains comes back short -/
+theorem stream_read_short (s : St) (n : Nat) (hi : Inv s) (hn : (pending s).length < n) : (read s n).1 < n :=
+  read_short s n hi hn
+
+theorem stream_peek (s : St) (hi : Inv s) :
+    (peek s).1 = (pending s).head? ∧ pending (peek s).2 = pending s ∧ Inv (peek s).2 :=
+  peek_spec s hi
+
+theorem stream_read_chunk (s : St) (hi : Inv s) :
+    (readChunk s).1 ++ pending (readChunk s).2 = pending s ∧ Inv (readChunk s).2 ∧ ((readChunk s).1 = [] → pending s = []) :=
+  readChunk_spec s hi
+
+theorem stream_eof_sound (s : St) (hi : Inv s) (h : eof s = true) : pending s = [] :=
+  eof_sound s hi h
+
+/-- a whole sequence of satisfiable reads over a stream with chunk size `k` returns the same byte
+    strings as slicing the flat content, for every `k ≥ 1` -/
+def readAll : St → List Nat → List Bytes
+  | _, [] => []
+  | s, n :: ns => (read s n).2.1 :: readAll (read s n).2.2 ns
+
+def sliceAll : Bytes → List Nat → List Bytes
+  | _, [] => []
+  | bs, n :: ns => bs.take n :: sliceAll (bs.drop n) ns
+
+theorem stream_refines_flat (content : Bytes) (k : Nat) (hk : 0 < k) (ns : List Nat) (hsum : ns.sum ≤ content.length) :
+    readAll (init content k) ns = sliceAll content ns := by
+  have key : ∀ (ns : List Nat) (s : St), Inv s → ns.sum ≤ (pending s).length → readAll s ns = sliceAll (pending s) ns := by
+    intro ns
+    induction ns with
+    | nil => intro s _ _; rfl
+    | cons n ns ih =>
+      intro s hi hs
+      simp only [List.sum_cons] at hs
+      obtain ⟨_, h2, h3, h4⟩ := read_exact s n hi (by omega)
+      simp only [readAll, sliceAll, h2]
+      congr 1
+      rw [← h3]
+      apply ih _ h4
+      rw [h3, List.length_drop]; omega
+  have := key ns (init content k) (inv_init content k hk) (by simpa [pending, init] using hsum)
+  simpa [pending, init] using this
+
+/-! ### non-vacuity -/
+example : readAll (init [1, 2, 3, 4, 5, 6, 7] 3) [2, 4, 1] = [[1, 2], [3, 4, 5, 6], [7]] := by decide
+example : (read (init [1, 2, 3] 2) 5).1 = 3 := by decide
+
 end JV.Props.C03
